@@ -945,6 +945,7 @@ int main(int argc, char** argv) {
     size_t n = 0;
     for (size_t i = 0; i < DT; i++) if (SH->dtable[i]) { if (n++ < 20000) R.distinct.insert(SH->dtable[i]); }
     R.counters["distinct_in_shard"] = SH->dcount;
+    if (SH->dcount >= DT / 2) R.counters["distinct_capped_shards"] = 1;
   }
   R.counters["cases"] = SH->evals;
   R.counters["blocks_done"] = SH->next_idx;
@@ -957,7 +958,15 @@ int main(int argc, char** argv) {
   extra["total_blocks"] = std::to_string(NB);
   {
     std::string s = "[";
-    for (size_t i = 0; i < SECS.size(); i++) { if (i) s += ", "; s += JObj().str("name", SECS[i].name).num("first", (long long)SECS[i].first).num("size", (long long)SECS[i].size).done(); }
+    for (size_t i = 0; i < SECS.size(); i++) {
+      if (i) s += ", ";
+      JObj o; o.str("name", SECS[i].name).num("first", (long long)SECS[i].first).num("size", (long long)SECS[i].size);
+      if (A.shard == 0 && SECS[i].size) {  // actual cases of the enumeration, for the evidence file
+        Case c; SECS[i].get(0, c); o.str("first_case", args_show(c));
+        SECS[i].get(SECS[i].size - 1, c); o.str("last_case", args_show(c));
+      }
+      s += o.done();
+    }
     extra["sections"] = s + "]";
   }
   {
